@@ -35,7 +35,8 @@ class Evaluator(Formatter):
 
     def observer(self, comp, broker):
         if self.context_cls is None:
-            for c in self.broker.instances:
+            # a snapshot: under a thread pool other workers add to the broker meanwhile
+            for c in list(self.broker.instances):
                 try:
                     if issubclass(c, ExecutionContext):
                         self.context_cls = c
